@@ -8,6 +8,7 @@ package pipeline
 
 import (
 	"math/rand"
+	"strings"
 	"testing"
 
 	vx "github.com/megaease/easegress/pkg/verifx"
@@ -15,9 +16,10 @@ import (
 
 var (
 	c02TraceFilters = []string{"f", "g", "h", "k"}
-	c02TraceKinds   = []string{"K12", "K1", "K123"}
+	c02TraceKinds   = []string{"K12", "K1", "K123", "K12", "K1", "K123", "KC", "K0"}
 	c02TraceAliases = []string{"a", "b", "c"}
-	c02TraceResults = []string{"r1", "r2", "r3"}
+	c02TraceResults = []string{"r1", "r2", "r3", "r1", "r2", "r3", "R1"}
+	c02TraceKeys    = []string{"r1", "r2", "r3", "R1"} // jumpIf keys drawn per node (declared by the node's kind or not)
 )
 
 func c02Pick(rng *rand.Rand, xs []string) string { return xs[rng.Intn(len(xs))] }
@@ -44,8 +46,36 @@ func c02DeclaredResults(kind string) []string {
 		return []string{"r1"}
 	case "K12":
 		return []string{"r1", "r2"}
+	case "K123":
+		return []string{"r1", "r2", "r3"}
+	case "KC":
+		return []string{"R1", "r1"}
 	}
-	return []string{"r1", "r2", "r3"}
+	return nil // K0, undefined filter
+}
+
+// c02NearMiss derives a name that is close to, but is not, the declared result r: other case, proper
+// prefix (down to the empty name), extension, one character replaced / prepended. Such names sort
+// before, between and after the declared results of a kind.
+func c02NearMiss(rng *rand.Rand, r string) string {
+	if r == "" {
+		r = "r1"
+	}
+	switch rng.Intn(7) {
+	case 0:
+		return strings.ToUpper(r)
+	case 1:
+		return strings.ToUpper(r[:1]) + r[1:]
+	case 2:
+		return r[:rng.Intn(len(r))] // proper prefix, possibly ""
+	case 3:
+		return r + c02Pick(rng, []string{"0", "1", "x", "_"})
+	case 4:
+		return c02Pick(rng, []string{"a", "q", "z", "_"}) + r
+	case 5:
+		return r[:len(r)-1] + c02Pick(rng, []string{"0", "5", "9", "a"})
+	}
+	return strings.ToLower(r)
 }
 
 func c02NodeName(n c02Node) string {
@@ -93,16 +123,28 @@ func c02RandFlow(rng *rand.Rand, defs []c02Def, maxLen int) []c02Node {
 			continue
 		}
 		declared := c02DeclaredResults(kindOf[nd.Filter])
-		for _, r := range c02TraceResults {
-			if rng.Intn(100) >= 35 {
-				continue
+		keys := append([]string{}, c02TraceKeys...)
+		if rng.Intn(100) < 2 { // a key that is a near miss of a declared result (or of r1 if the kind declares none)
+			base := ""
+			if len(declared) > 0 {
+				base = declared[rng.Intn(len(declared))]
 			}
-			isDeclared := false
-			for _, d := range declared {
-				isDeclared = isDeclared || d == r
-			}
-			if !isDeclared && rng.Intn(100) >= 6 { // undeclared results only rarely
-				continue
+			keys = append(keys, c02NearMiss(rng, base))
+		}
+		for ki, r := range keys {
+			if ki < len(c02TraceKeys) {
+				if rng.Intn(100) >= 35 {
+					continue
+				}
+				isDeclared := false
+				for _, d := range declared {
+					isDeclared = isDeclared || d == r
+				}
+				if !isDeclared && rng.Intn(100) >= 6 { // undeclared results only rarely
+					continue
+				}
+			} else if _, drawn := nd.Jump[r]; drawn && nd.Jump[r] != c02NoJump {
+				continue // the near miss happens to be a key that is mapped already
 			}
 			// names of later filter nodes that are unique among the later nodes: the valid targets
 			count := map[string]int{}
@@ -126,6 +168,9 @@ func c02RandFlow(rng *rand.Rand, defs []c02Def, maxLen int) []c02Node {
 				nd.Jump[r] = c02NodeName(flow[rng.Intn(i+1)]) // backward or self
 			case x < 98:
 				nd.Jump[r] = c02Pick(rng, []string{"f", "g", "h", "k", "a", "b", "c", "zz"})
+			}
+			if _, drawn := nd.Jump[r]; !drawn && ki >= len(c02TraceKeys) {
+				nd.Jump[r] = "END" // a near miss is always mapped
 			}
 		}
 	}
